@@ -1,5 +1,5 @@
 (** C01 - Every task gets exactly one terminal outcome, reported once, in order. *)
-From HQ Require Import Base.Prelude Cluster.Types Cluster.Core Cluster.Reactor Cluster.Worker Cluster.Server Cluster.Sys Cluster.Monitors Cluster.ProofsJob Cluster.ProofsCore Cluster.ProofsMore Cluster.ProofsTerminal Cluster.ProofsStep Cluster.ProofsFinal Cluster.BijBase Cluster.ProofsOnce.
+From HQ Require Import Base.Prelude Cluster.Types Cluster.Core Cluster.Reactor Cluster.Worker Cluster.Server Cluster.Sys Cluster.Monitors Cluster.ProofsJob Cluster.ProofsCore Cluster.ProofsMore Cluster.ProofsTerminal Cluster.ProofsStep Cluster.ProofsFinal Cluster.BijBase Cluster.ProofsOnce Cluster.RejHyp Cluster.BijFinal Cluster.StartFinBase Cluster.StartFin Cluster.StartFin2Base Cluster.StartFin2.
 From Coq Require Import ZArith.
 Local Open Scope N_scope.
 
@@ -66,6 +66,46 @@ Theorem C01_terminal_event_example : exists s outs, run (init_sys 0 2) once_ops 
   /\ terminal_ids outs = [(1, 0)] /\ task_state (s, []) (1, 0) = Some JF.
 Proof. exact once_example. Qed.
 
+(** "In order": in the event stream of EVERY history (no hypothesis), each TaskFinished of a task is
+    preceded by a TaskStarted of the same task with no terminal event of the task in between - and,
+    with [terminal_event_once], no terminal event of the task anywhere else in the stream. *)
+Theorem C01_finished_after_started : forall ops reserve maxfill s outs pre t post,
+  run (init_sys reserve maxfill) ops = Ok (s, outs) ->
+  outs = pre ++ OEv (EvFinished t) :: post ->
+  (exists a i ws rv b, pre = a ++ OEv (EvStarted t i ws rv) :: b /\ ~ In t (terminal_ids b)) /\
+  ~ In t (terminal_ids pre) /\ ~ In t (terminal_ids post).
+Proof.
+  intros ops reserve maxfill s outs pre t post H E. split.
+  - exact (finished_after_started ops reserve maxfill s outs H pre t post E).
+  - exact (proj2 (finished_after_started_strong ops reserve maxfill s outs pre t post H E)).
+Qed.
+
+(** ... and the start it belongs to is the CURRENT one: after the last TaskStarted of the task
+    before its TaskFinished there is no further start of the task, no terminal event of it, and the
+    worker that started it (the root, for a multi-node task) has not been lost. *)
+Theorem C01_finished_after_current_start : forall ops reserve maxfill s outs pre t post,
+  Forall op_wf ops -> run_fresh (init_sys reserve maxfill) ops = true ->
+  run (init_sys reserve maxfill) ops = Ok (s, outs) ->
+  outs = pre ++ OEv (EvFinished t) :: post ->
+  exists w a i ws rv b, pre = a ++ OEv (EvStarted t i ws rv) :: b /\ hd_error ws = Some w /\
+    (forall i' ws' rv', ~ In (OEv (EvStarted t i' ws' rv')) b) /\
+    ~ In t (terminal_ids b) /\ (forall r, ~ In (OEv (EvWLost w r)) b).
+Proof.
+  intros ops reserve maxfill s outs pre t post Hwf Hf H E.
+  destruct (finished_after_started_no_loss ops reserve maxfill s outs Hwf Hf H pre t post E) as (w & a & i & ws & rv & b & X).
+  exists w, a, i, ws, rv, b. exact X.
+Qed.
+
+(** The executable form of the first statement (used as a trace monitor), and non-vacuity. *)
+Theorem C01_fas_check_spec : forall outs, fas_check outs = true <-> FAS outs.
+Proof. exact fas_check_spec. Qed.
+Definition C01_fas_example := fas_example.
+Definition C01_fas2_example := fas2_example.
+(** A failure event does NOT presuppose a start (launch failure; crash limit of a task whose
+    worker was lost before it reported the start): witnesses. *)
+Definition C01_failed_without_start_launch := failed_needs_start_refuted_launch.
+Definition C01_failed_without_start_crash_mn := failed_needs_start_refuted_crash_mn.
+
 Print Assumptions C01_terminal_event_once.
 Print Assumptions C01_terminal_event_example.
 Print Assumptions C01_outcome_final_system.
@@ -74,3 +114,10 @@ Print Assumptions C01_forget_only_terminated.
 Print Assumptions C01_finished_only_from_running.
 Print Assumptions C01_failed_only_from_active.
 Print Assumptions C01_cancel_abort_only_from_active.
+Print Assumptions C01_finished_after_started.
+Print Assumptions C01_finished_after_current_start.
+Print Assumptions C01_fas_check_spec.
+Print Assumptions C01_fas_example.
+Print Assumptions C01_fas2_example.
+Print Assumptions C01_failed_without_start_launch.
+Print Assumptions C01_failed_without_start_crash_mn.
